@@ -249,7 +249,7 @@ func runInner(c Case) (res vt.Result, fail *vt.Fail) {
 		case 3:
 			ms = append([]ocispec.Descriptor{{}}, ms...)
 		case 4:
-			ms = append(ms, ocispec.Descriptor{MediaType: gen.MTImage, Digest: digest.FromString("dead"), Size: 7, ArtifactType: "application/vnd.dead"})
+			ms = append(ms, ocispec.Descriptor{MediaType: gen.MTImage, Digest: digest.FromString(fmt.Sprintf("dead%d", s)), Size: 7, ArtifactType: "application/vnd.dead"})
 		}
 		if len(ms) == 0 {
 			// an empty pre-existing index would be the same manifest for every
@@ -257,7 +257,11 @@ func runInner(c Case) (res vt.Result, fail *vt.Fail) {
 			// client's own maintenance produces
 			continue
 		}
-		idx := ocispec.Index{MediaType: gen.MTIndex, Manifests: ms}
+		// one index manifest per referrers tag: two subjects whose pre-existing
+		// indexes were byte-identical (only a zero-value or dead entry) would share
+		// one digest, and deleting the superseded index of the first would make the
+		// second's deletion fail with not-found - a registry state, not a client fault
+		idx := ocispec.Index{MediaType: gen.MTIndex, Manifests: ms, Annotations: map[string]string{"verif.subject": fmt.Sprint(s)}}
 		idx.SchemaVersion = 2
 		b, _ := json.Marshal(idx)
 		dg := regmodel.DigestOf("sha256", b)
